@@ -86,13 +86,22 @@ def judge_format(acc, f):
             acc.transitions += 1
             acc.evaluations += 1
             if fmt_of(y) != f or y.n_int != f.n_int:
-                bad('parse_ctor', 'Fxp(dtype=%r) gives %s (n_int %r)' % (st, y.dtype, y.n_int), kind=kind)
+                bad('parse_ctor', 'Fxp(dtype=%r) gives %s (n_int %r)' % (st, y.dtype, y.n_int), spelling=kind)
             z = Fxp(None, not f.signed, 7, 3)
             z.resize(dtype=st)
             acc.transitions += 1
             acc.evaluations += 1
             if fmt_of(z) != f or z.n_int != f.n_int or z.dtype != spell_fxp(f):
-                bad('parse_resize', 'resize(dtype=%r) gives %s' % (st, z.dtype), kind=kind)
+                bad('parse_resize', 'resize(dtype=%r) gives %s' % (st, z.dtype), spelling=kind)
+        # history: an object of the OPPOSITE signedness resized by dtype string to this format must render and report like a fresh one
+        for st in [spell_fxp(f)] + ([spell_q(f)] if f.n_word - f.n_frac >= 0 else []):
+            hobj = Fxp(None, not f.signed, max(1, f.n_word - 1), 1)
+            hobj.resize(dtype=st)
+            acc.transitions += 3
+            acc.evaluations += 3
+            if (hobj.get_dtype('Q'), hobj.get_dtype('fxp'), hobj.n_int, hobj.dtype) != (spell_q(f), spell_fxp(f), f.n_int, spell_fxp(f)):
+                bad('resize_flip_signedness', 'object of the other signedness resized with dtype=%r: Q %r fxp %r n_int %r'
+                    % (st, hobj.get_dtype('Q'), hobj.get_dtype('fxp'), hobj.n_int))
         # an object holding a value keeps it when representable (resize by its own dtype is the identity)
         if f.n_word <= 52:
             w = Fxp(f.hi, f.signed, f.n_word, f.n_frac, raw=True)
